@@ -74,7 +74,10 @@ Proof. intro C. induction C; try congruence. contradiction. Qed.
 Definition uf := nat -> nat.                       (* vertex -> name of its class *)
 Definition uf_init : uf := fun x => x.
 Definition uf_same (u : uf) (x y : nat) : bool := Nat.eqb (u x) (u y).
-Definition uf_union (u : uf) (x y : nat) : uf := fun z => if Nat.eqb (u z) (u x) then u y else u z.
+(* the two class names are looked up once, when the union is made, and the queried vertex once per level: the extracted
+   closure chain then answers a query in time linear in the number of unions (written naively it is exponential) *)
+Definition uf_union (u : uf) (x y : nat) : uf :=
+  let rx := u x in let ry := u y in fun z => let rz := u z in if Nat.eqb rz rx then ry else rz.
 
 (* u names exactly the connected components of g *)
 Definition uf_rep (u : uf) (g : graph) : Prop := forall x y, u x = u y <-> conn g x y.
